@@ -1,6 +1,7 @@
 package main
 
 import (
+	"regexp"
 	"encoding/json"
 	"fmt"
 	"os"
@@ -277,6 +278,25 @@ func calibrateGo(c *Ctx, b *mgBatch, tag string) {
 	must(os.WriteFile(filepath.Join(dir, "go.mod"), []byte("module cal\n\ngo 1.20\n"), 0o644))
 	out, errOut, ok := runGoDir(dir)
 	if !ok {
+		// a crash of the Go compiler itself ("internal compiler error", met once: go1.26 on `k / 7 * -2147483648`) says
+		// nothing about the program: the programs it names leave the batch (they are not compared with goatlang either,
+		// as their expected behaviour would be uncalibrated) and the rest is compiled again
+		dropped := 0
+		for _, m := range regexp.MustCompile(`(?m)^p(\d+)/[^\n]*internal compiler error`).FindAllStringSubmatch(errOut, -1) {
+			var i int
+			fmt.Sscan(m[1], &i)
+			if i >= 0 && i < len(b.Progs) && len(b.Behs[b.Progs[i].ID]) > 0 {
+				b.Behs[b.Progs[i].ID] = nil
+				dropped++
+			}
+		}
+		n, _ := c.Extra["go_compiler_crashes_"+tag].(int)
+		if dropped > 0 && n < 20 {
+			c.Extra["go_compiler_crashes_"+tag] = n + dropped
+			must(os.RemoveAll(dir))
+			calibrateGo(c, b, tag)
+			return
+		}
 		fatalf("calibration module does not build/run with the Go toolchain:\n%s", clip(errOut, 3000))
 	}
 	parts := strings.Split(out, "##### ")
